@@ -41,6 +41,12 @@ import (
 	"github.com/ethereum/go-ethereum/crypto"
 	ethermint "github.com/evmos/ethermint/types"
 
+	"context"
+
+	"github.com/cosmos/cosmos-sdk/types/tx/signing"
+	authsigning "github.com/cosmos/cosmos-sdk/x/auth/signing"
+	clienttx "github.com/cosmos/cosmos-sdk/client/tx"
+
 	"fxverif/harness/hx"
 
 	fxcontract "github.com/functionx/fx-core/v8/contract"
@@ -66,6 +72,7 @@ type actor struct {
 	eth  *ecdsa.PrivateKey // non-nil for ethereum-key accounts (possible targets)
 	dual bool              // an ethereum-key account that also has an auth account with a secp256k1 key (possible source AND target)
 	vest *vestSpec         // non-nil for vesting accounts (they only send, receive and migrate)
+	priv *secp256k1.PrivKey // the secp256k1 key of the auth account (users, vesting and dual accounts): signs transactions
 }
 
 // a vesting schedule, times in seconds relative to the world's clock, denominations as indexes into world.denoms
@@ -189,11 +196,16 @@ func (w *world) commitInfo() abci.CommitInfo {
 
 // endBlock finalises the current block at the current time (begin/end blockers of every module run on the real app),
 // commits, and opens the next block dt seconds later.
-func (w *world) endBlock(dt int64) {
+func (w *world) endBlock(dt int64) { w.endBlockTxs(dt, nil) }
+
+// endBlockTxs: as endBlock, the block carrying the given signed transactions (delivered by the real FinalizeBlock: ante
+// handler with signature verification, ValidateBasic, message router)
+func (w *world) endBlockTxs(dt int64, txs [][]byte) []*abci.ExecTxResult {
 	ci := w.commitInfo()
 	h := w.s.Ctx.BlockHeight()
 	prop := w.s.Ctx.BlockHeader().ProposerAddress
-	if _, err := w.s.App.FinalizeBlock(&abci.RequestFinalizeBlock{Height: h, Time: w.time(), ProposerAddress: prop, DecidedLastCommit: ci}); err != nil {
+	fres, err := w.s.App.FinalizeBlock(&abci.RequestFinalizeBlock{Height: h, Time: w.time(), ProposerAddress: prop, DecidedLastCommit: ci, Txs: txs})
+	if err != nil {
 		panic(err)
 	}
 	if _, err := w.s.App.Commit(); err != nil {
@@ -204,6 +216,7 @@ func (w *world) endBlock(dt int64) {
 		panic(err)
 	}
 	w.s.Ctx = w.s.App.GetContextForFinalizeBlock(nil)
+	return fres.TxResults
 }
 
 // ---------------------------------------------------------------------------------------------------------
@@ -247,7 +260,7 @@ func newWorld(t *testing.T, out *hx.Out, rng *rand.Rand) *world {
 		secret := make([]byte, 32)
 		rng.Read(secret)
 		pk := secp256k1.GenPrivKeyFromSecret(secret)
-		a := &actor{id: 1 + i, addr: sdk.AccAddress(pk.PubKey().Address().Bytes())}
+		a := &actor{id: 1 + i, addr: sdk.AccAddress(pk.PubKey().Address().Bytes()), priv: pk}
 		var pub = pk.PubKey()
 		if i == 5 {
 			pub = nil // an account without public key: cannot be a migration source
@@ -285,6 +298,7 @@ func newWorld(t *testing.T, out *hx.Out, rng *rand.Rand) *world {
 			rng.Read(secret)
 			pk := secp256k1.GenPrivKeyFromSecret(secret)
 			a.dual = true
+			a.priv = pk
 			w.s.App.AccountKeeper.SetAccount(ctx, &ethermint.EthAccount{
 				BaseAccount: authtypes.NewBaseAccount(a.addr, pk.PubKey(), w.s.App.AccountKeeper.NextAccountNumber(ctx), 0),
 				CodeHash:    common.BytesToHash(crypto.Keccak256(nil)).String(),
@@ -2117,6 +2131,9 @@ func TestC14(t *testing.T) {
 		case i == 13:
 			w.boundaryScenario()
 			continue
+		case i == 14:
+			w.txScenario()
+			continue
 		}
 		for j := 0; j < nOps; j++ {
 			w.randomOp()
@@ -2668,6 +2685,134 @@ func (w *world) boundaryScenario() {
 			w.out.Violate(fmt.Sprintf("later: boundary scenario: the retired source %d holds something again after maturation", k))
 		}
 	}
+}
+
+// signedTx: a transaction with the given messages signed (SIGN_MODE_DIRECT) by the given secp256k1 key as the account at addr
+func (w *world) signedTx(msgs []sdk.Msg, addr sdk.AccAddress, priv *secp256k1.PrivKey) ([]byte, error) {
+	txCfg := w.s.App.GetTxConfig()
+	txb := txCfg.NewTxBuilder()
+	if err := txb.SetMsgs(msgs...); err != nil {
+		return nil, err
+	}
+	gas := uint64(8_000_000)
+	txb.SetGasLimit(gas)
+	txb.SetFeeAmount(sdk.NewCoins(w.coin(sdkmath.NewInt(1_000_000_000_000).MulRaw(int64(gas)))))
+	acc := w.s.App.AccountKeeper.GetAccount(w.s.Ctx, addr)
+	if acc == nil {
+		return nil, fmt.Errorf("no account")
+	}
+	mode := signing.SignMode_SIGN_MODE_DIRECT
+	sig := signing.SignatureV2{PubKey: priv.PubKey(), Data: &signing.SingleSignatureData{SignMode: mode}, Sequence: acc.GetSequence()}
+	if err := txb.SetSignatures(sig); err != nil {
+		return nil, err
+	}
+	sd := authsigning.SignerData{Address: addr.String(), ChainID: w.s.Ctx.ChainID(), AccountNumber: acc.GetAccountNumber(), Sequence: acc.GetSequence(), PubKey: priv.PubKey()}
+	sig, err := clienttx.SignWithPrivKey(context.TODO(), mode, sd, txb, priv, txCfg, acc.GetSequence())
+	if err != nil {
+		return nil, err
+	}
+	if err := txb.SetSignatures(sig); err != nil {
+		return nil, err
+	}
+	return txCfg.TxEncoder()(txb.GetTx())
+}
+
+// txScenario: the migration delivered as a signed transaction through the real FinalizeBlock — ante handler (the required
+// signer is the source: its account key must have signed the transaction), baseapp's ValidateBasic (the target's key must
+// have signed (source, target)), message router, handler — in every combination of the two signatures being right or
+// wrong.  Fees, sequence numbers and the block's begin / end blockers are outside the model: no op line is emitted; the
+// outcome is judged on the real state (moved completely or not at all).
+func (w *world) txScenario() {
+	w.mute = true
+	type pairT struct {
+		src, tgt *actor
+		txKey    string // who signs the transaction: source | other
+		inner    string // who signs (source, target): target | other | swapped
+	}
+	other := w.byID[5]
+	pairs := []pairT{
+		{w.byID[2], w.byID[12], "other", "target"},
+		{w.byID[3], w.byID[13], "source", "other"},
+		{w.byID[4], w.byID[14], "source", "swapped"},
+		{w.byID[1], w.byID[11], "source", "target"},
+	}
+	for _, p := range pairs {
+		for vi, units := range []int64{120, 60} {
+			if res := w.exec(&stakingtypes.MsgDelegate{DelegatorAddress: p.src.addr.String(), ValidatorAddress: w.valStr(vi), Amount: w.coin(w.amt(units))}); res != "ok" {
+				w.out.Violate("harness: delegate in txScenario failed: " + res)
+			}
+		}
+		if res := w.exec(&stakingtypes.MsgUndelegate{DelegatorAddress: p.src.addr.String(), ValidatorAddress: w.valStr(0), Amount: w.coin(w.amt(20))}); res != "ok" {
+			w.out.Violate("harness: undelegate in txScenario failed: " + res)
+		}
+	}
+	w.opBlock(5)
+	for _, p := range pairs {
+		var sig string
+		switch p.inner {
+		case "target":
+			sig = w.sign(p.tgt.eth, p.src.addr, p.tgt.addr)
+		case "swapped":
+			sig = w.sign(p.tgt.eth, p.tgt.addr, p.src.addr)
+		default:
+			sig = w.sign(w.byID[12].eth, p.src.addr, p.tgt.addr)
+		}
+		msg := &migratetypes.MsgMigrateAccount{From: p.src.addr.String(), To: common.BytesToAddress(p.tgt.addr).String(), Signature: sig}
+		signer := p.src
+		if p.txKey == "other" {
+			signer = other
+		}
+		// the transaction is always built as the source's (account number, sequence, address); the key that signs it varies
+		bz, err := w.signedTx([]sdk.Msg{msg}, p.src.addr, signer.priv)
+		if err != nil {
+			w.out.Violate("harness: cannot build the migration transaction: " + err.Error())
+			continue
+		}
+		pf, pt := w.portfolio(p.src.addr), w.portfolio(p.tgt.addr)
+		feeBefore := w.balFX(p.src.addr)
+		res := w.endBlockTxs(1, [][]byte{bz})
+		w.invariants("after a block with a migration transaction")
+		w.consistency("after a block with a migration transaction")
+		code, log := uint32(999), ""
+		if len(res) == 1 {
+			code, log = res[0].Code, res[0].Log
+		}
+		want := p.txKey == "source" && p.inner == "target"
+		w.out.Count(fmt.Sprintf("tx-scenario:tx-signed-by=%s,pair-signed-by=%s,accepted=%v", p.txKey, p.inner, code == 0))
+		af, at := w.portfolio(p.src.addr), w.portfolio(p.tgt.addr)
+		_, hasRec := w.s.App.MigrateKeeper.GetMigrateRecord(w.s.Ctx, p.src.addr)
+		switch {
+		case code == 0 && !want:
+			w.out.Violate(fmt.Sprintf("signature: a migration transaction signed by %s (required: the source's account key) carrying a (source, target) signature by %s (required: the target's key over prefix, source, target) was accepted by FinalizeBlock", p.txKey, p.inner))
+		case code != 0 && want:
+			w.out.Violate("harness: a correctly signed migration transaction was refused by FinalizeBlock: " + log)
+		case code != 0:
+			if hasRec || fmt.Sprint(af.dels, af.ubds, af.reds) != fmt.Sprint(pf.dels, pf.ubds, pf.reds) || fmt.Sprint(at.dels, at.ubds, at.reds) != fmt.Sprint(pt.dels, pt.ubds, pt.reds) || !at.bal.Equal(pt.bal) {
+				w.out.Violate("refused: a refused migration transaction moved something or wrote a record")
+			}
+		default:
+			// accepted: everything the source held after paying the fee is with the target, the source has nothing
+			if !af.empty() {
+				w.out.Violate("moved: source still holds balances or staking records after a migration transaction")
+			}
+			if fmt.Sprint(at.dels, at.ubds, at.reds) != fmt.Sprint(pf.dels, pf.ubds, pf.reds) {
+				w.out.Violate("moved: after a migration transaction the target's delegations / unbonding / redelegation entries differ from the source's before")
+			}
+			gained := at.bal.AmountOf(fxtypes.DefaultDenom).Sub(pt.bal.AmountOf(fxtypes.DefaultDenom))
+			if gained.GT(feeBefore) || gained.IsNegative() {
+				w.out.Violate("moved: after a migration transaction the target holds more than its own and the source's coins")
+			}
+			if !hasRec {
+				w.out.Violate("record: no migration record after an accepted migration transaction")
+			}
+			if m := w.mentions(p.src.addr); len(m) > 0 {
+				w.out.Violate("stale: a raw key or value under " + m[0] + " still mentions the source address after a migration transaction")
+			}
+			w.gone[p.src.id], w.gone[p.tgt.id] = true, true
+		}
+	}
+	w.opBlock(unbondSecs)
+	w.opBlock(1)
 }
 
 // chainScenario: every way an address of an accepted migration can come back in another role
